@@ -183,10 +183,9 @@ func c12(c *core.Ctx, r *core.Report) {
 		return
 	}
 
-	// ---- R5 call sites: exactly three instances of the sorter are used
+	// ---- R5 call sites: every use of the sorter lies in a routine one of the tables decides
+	sorterSiteRules(c, r, "C12.R5")
 	sites := c.CallSites(func(com *ssa.CallCommon) bool { return core.IsCallTo(com, sorter) })
-	r.Count("sorter_call_sites", len(sites))
-	r.Exactly("C12.R5", "sorter call sites", len(sites), 3)
 
 	// ---- R1-R3: interpret every instance on every abstract list
 	insts := map[*ssa.Function]bool{}
